@@ -359,8 +359,12 @@ void ep3_mul_sim_joint(ep3_t r, const ep3_t p, const bn_t k, const ep3_t q,
 
 void ep3_mul_sim_gen(ep3_t r, const bn_t k, const ep3_t q, const bn_t m) {
 	ep3_t gen;
+	bn_t n, _k, _m;
 
 	ep3_null(gen);
+	bn_null(n);
+	bn_null(_k);
+	bn_null(_m);
 
 	if (bn_is_zero(k)) {
 		ep3_mul(r, q, m);
@@ -373,12 +377,19 @@ void ep3_mul_sim_gen(ep3_t r, const bn_t k, const ep3_t q, const bn_t m) {
 
 	RLC_TRY {
 		ep3_new(gen);
+		bn_new(n);
+		bn_new(_k);
+		bn_new(_m);
 
 		ep3_curve_get_gen(gen);
+		ep3_curve_get_ord(n);
+		/* The recoding buffers hold 2 * RLC_FP_BITS digits. */
+		bn_mod(_k, k, n);
+		bn_mod(_m, m, n);
 #if EP_FIX == LWNAF && defined(EP_PRECO)
-		ep3_mul_sim_plain(r, gen, k, q, m, ep3_curve_get_tab());
+		ep3_mul_sim_plain(r, gen, _k, q, _m, ep3_curve_get_tab());
 #else
-		ep3_mul_sim(r, gen, k, q, m);
+		ep3_mul_sim(r, gen, _k, q, _m);
 #endif
 	}
 	RLC_CATCH_ANY {
@@ -386,6 +397,9 @@ void ep3_mul_sim_gen(ep3_t r, const bn_t k, const ep3_t q, const bn_t m) {
 	}
 	RLC_FINALLY {
 		ep3_free(gen);
+		bn_free(n);
+		bn_free(_k);
+		bn_free(_m);
 	}
 }
 
